@@ -56,6 +56,11 @@ pub struct SchedScenario {
     pub picks: Vec<u8>,
     /// Check plain `put` as one atomic step (strict write-once under concurrency).
     pub atomic_put: bool,
+    /// Injected fault (mode `schedule-faulty`): the `occurrence`-th time task `task` reaches the
+    /// named write point, that step fails with an I/O error. The failed write must leave no trace:
+    /// it takes no effect in the sequential specification (a plain `put` has only made its check).
+    #[serde(default)]
+    pub fail: Option<(u8, String, u8)>,
 }
 
 // ------------------------------------------------------------------------------------------------
@@ -78,6 +83,10 @@ struct Shared {
     granted: Vec<bool>,
     stamp: u64,
     records: Vec<Rec>,
+    /// (task, point, occurrence) to fail, occurrences seen so far, and (task, op index) it hit.
+    fail: Option<(usize, String, u8)>,
+    seen: u8,
+    fired: bool,
 }
 
 impl Shared {
@@ -94,6 +103,9 @@ struct Gate {
     registered: bool,
 }
 
+const FAIL_POINTS: &[&str] =
+    &["write:before-create", "write:after-create", "write:mid-payload", "write:after-write", "write:after-flush", "write:before-rename"];
+
 impl Future for Gate {
     type Output = std::io::Result<()>;
 
@@ -108,6 +120,14 @@ impl Future for Gate {
         if s.granted[self.task] {
             s.granted[self.task] = false;
             s.waiting[self.task] = None;
+            let hit = s.fail.as_ref().is_some_and(|(t, p, _)| *t == self.task && p == self.point);
+            if hit {
+                s.seen += 1;
+                if s.fail.as_ref().is_some_and(|(_, _, occ)| *occ == s.seen) {
+                    s.fired = true;
+                    return Poll::Ready(Err(std::io::Error::other("injected fault")));
+                }
+            }
             return Poll::Ready(Ok(()));
         }
         Poll::Pending
@@ -149,6 +169,8 @@ enum HRes {
     NotFound,
     Val(u32),
     Keys(u8),
+    /// The write failed with the injected I/O error.
+    Failed,
 }
 
 #[derive(Clone, Debug, PartialEq, Eq, Hash)]
@@ -224,6 +246,16 @@ fn history(done: &[Done], atomic_put: bool, n_keys: usize) -> Vec<HistOp<HOp, HR
     for d in done {
         let kk = |k: &u8| usize::from(*k) % n_keys;
         match &d.sop {
+            SOp::Put { k, .. } if d.hres == HRes::Failed => {
+                // The failure is injected after the existence check: the check saw no object, and
+                // nothing was published.
+                if !atomic_put {
+                    let id = next_id;
+                    next_id += 1;
+                    push(d, HOp::PutCheck { id, k: kk(k) }, HRes::Absent);
+                }
+            }
+            SOp::PutOverwrite { .. } if d.hres == HRes::Failed => {}
             SOp::Put { k, v } => {
                 if atomic_put {
                     push(d, HOp::PutAtomic { k: kk(k), v: *v }, d.hres.clone());
@@ -288,6 +320,7 @@ impl SchedScenario {
             tasks: vec![vec![SOp::Put { k: 0, v: 0 }], vec![SOp::Put { k: 0, v: 1 }]],
             picks,
             atomic_put: true,
+            fail: None,
         }
     }
 }
@@ -347,6 +380,19 @@ impl Scenario for SchedScenario {
         let picks = (0..110)
             .map(|_| if sticky && rng.chance(7, 10) { 255 } else { rng.below(200) as u8 })
             .collect();
+        let fail = if mode == "schedule-faulty" {
+            let writers: Vec<usize> = tasks
+                .iter()
+                .enumerate()
+                .filter(|(_, t)| t.iter().any(|o| matches!(o, SOp::Put { .. } | SOp::PutOverwrite { .. })))
+                .map(|(i, _)| i)
+                .collect();
+            (!writers.is_empty()).then(|| {
+                (*rng.pick(&writers) as u8, (*rng.pick(FAIL_POINTS)).to_owned(), rng.range(1, 2) as u8)
+            })
+        } else {
+            None
+        };
         Self {
             keys,
             initial,
@@ -354,6 +400,7 @@ impl Scenario for SchedScenario {
             tasks,
             picks,
             atomic_put: !crate::AVOID_KNOWN.contains(&AVOID_KEY_PUT_RACE),
+            fail,
         }
     }
 
@@ -389,6 +436,7 @@ impl Scenario for SchedScenario {
         let sh = Arc::new(Mutex::new(Shared {
             waiting: vec![None; n_tasks],
             granted: vec![false; n_tasks],
+            fail: self.fail.as_ref().map(|(t, p, o)| (usize::from(*t) % n_tasks, p.clone(), *o)),
             ..Shared::default()
         }));
         {
@@ -509,6 +557,8 @@ impl Scenario for SchedScenario {
 
         // Completed operations -> history.
         let records = std::mem::take(&mut sh.lock().expect("scheduler state").records);
+        let fired = sh.lock().expect("scheduler state").fired;
+        let mut failed_seen = false;
         let mut done: Vec<Done> = Vec::new();
         let listing = |keys: &[String], at: &str| -> Result<u8, Violation> {
             let mut mask = 0_u8;
@@ -542,6 +592,13 @@ impl Scenario for SchedScenario {
                     }
                 }
                 (SOp::List, Res::Keys(keys)) => HRes::Keys(listing(keys, &at)?),
+                (SOp::Put { .. } | SOp::PutOverwrite { .. }, Res::Other(_))
+                    if fired && self.fail.as_ref().is_some_and(|(t, _, _)| usize::from(*t) % n_tasks == r.task) && !failed_seen =>
+                {
+                    failed_seen = true;
+                    ctx.fault("injected-write-error-under-schedule");
+                    HRes::Failed
+                }
                 (_, other) => {
                     check!(false, "unexpected-error", "{at}: fault-free operation failed: {}", other.short());
                     unreachable!()
